@@ -81,6 +81,29 @@ fn class(e: &anyhow::Error) -> String {
     format!("other:{:?}", e)
 }
 
+/// the proof of possession judged with blst directly, one half at a time (NOT through `RegistrationEntry::new`, which is
+/// the code under test): `k1` is a BLS signature of "PoP" under the key, and `e(k2, g2) = e(g1, vk)`.
+/// bytes = vk (96, G2 compressed) ‖ k1 (48, G1 compressed) ‖ k2 (48, G1 compressed)
+fn pop_halves(bytes: &[u8]) -> (bool, bool) {
+    use blst::min_sig::{PublicKey, Signature};
+    use blst::*;
+    if bytes.len() != 192 { return (false, false); }
+    let (vk, k1, k2) = (&bytes[..96], &bytes[96..144], &bytes[144..]);
+    let pk = match PublicKey::from_bytes(vk) { Ok(p) => p, Err(_) => return (false, false) };
+    let half1 = match Signature::from_bytes(k1) { Ok(sg) => sg.verify(false, b"PoP", &[], &[], &pk, false) == BLST_ERROR::BLST_SUCCESS, Err(_) => false };
+    let half2 = unsafe {
+        let mut k2a = blst_p1_affine::default();
+        let mut vka = blst_p2_affine::default();
+        if blst_p1_uncompress(&mut k2a, k2.as_ptr()) != BLST_ERROR::BLST_SUCCESS || blst_p2_uncompress(&mut vka, vk.as_ptr()) != BLST_ERROR::BLST_SUCCESS { false } else {
+            let (mut l, mut r) = (blst_fp12::default(), blst_fp12::default());
+            blst_miller_loop(&mut l, blst_p2_affine_generator(), &k2a);
+            blst_miller_loop(&mut r, &vka, blst_p1_affine_generator());
+            blst_fp12_finalverify(&l, &r)
+        }
+    };
+    (half1, half2)
+}
+
 fn main() {
     let args = Args::parse();
     let mut rng = Rng::new(args.seed);
@@ -141,6 +164,19 @@ fn main() {
                 x.sig = kes_sign(a.seed, t, &forged.to_bytes());
                 cases.push(("pop-swapped-kes-resigned", x));
                 let mut x2 = base.clone(); x2.vkpop = forged; cases.push(("pop-swapped", x2));
+            }
+            {
+                // ONE half of the proof of possession from B (k1, the signature of "PoP"; or k2, the key in G1), the other
+                // half A's own, KES-signed by A: a check that lets one valid half pass accepts these
+                let (ab, bb) = (a.vkpop.to_bytes(), b.vkpop.to_bytes());
+                for (tag, tag_r, lo, hi) in [("pop-k1-of-other", "pop-k1-of-other-kes-resigned", 96usize, 144usize), ("pop-k2-of-other", "pop-k2-of-other-kes-resigned", 144, 192)] {
+                    let mut fb = ab.to_vec();
+                    fb[lo..hi].copy_from_slice(&bb[lo..hi]);
+                    if let Ok(forged) = VerificationKeyProofOfPossessionForConcatenation::from_bytes(&fb) {
+                        let mut x = base.clone(); x.vkpop = forged; x.sig = kes_sign(a.seed, t, &forged.to_bytes()); cases.push((tag_r, x));
+                        let mut x2 = base.clone(); x2.vkpop = forged; cases.push((tag, x2));
+                    }
+                }
             }
             // whole registration of B's components under A's op-cert etc. (2-splices)
             let sig_b = kes_sign(b.seed, t, &b.vkpop.to_bytes());
@@ -227,7 +263,8 @@ fn main() {
                 (Some(o), Some(s)) => (0u32..=66).filter(|t| s.verify(*t, &o.get_kes_verification_key(), &msg).is_ok()).collect(),
                 _ => vec![],
             };
-            let pop_ok = RegistrationEntry::new(cs.vkpop, 1).is_ok();
+            let (pop_half1, pop_half2) = pop_halves(&cs.vkpop.to_bytes());
+            let pop_ok = pop_half1 && pop_half2;
             let pool = cs.opcert.as_ref().and_then(|o| o.compute_protocol_party_id().ok());
             let pid_id = pool.as_ref().map(|p| id(format!("pid:{}", p)).to_string()).unwrap_or("none".into());
             let sd_line = sd_eff.iter().map(|(p, s)| format!("({},{})", id(format!("pid:{}", p)), s)).collect::<Vec<_>>().join(",");
